@@ -54,7 +54,7 @@ META = dict(
     ],
 )
 
-TIMEOUT = {"quick": 900, "thorough": 1700}
+TIMEOUT = {"quick": 1500, "thorough": 1900}
 
 LINK_LOSSES = [
     ("send_fails_first", "global_request"),
@@ -138,12 +138,15 @@ def pinned(call, seed, ci):
 def quick_cases(ctx, calls):
     """Each call x each of the six loss kinds once, timing rotating with the
     seed (Latin square), plus pinned cells that do not depend on the seed."""
-    rng = ctx.rng
+    import random
+
+    rng = random.Random(ctx.seed * 7919 + 11)  # the same plan in every shard
     out = []
     names = sorted(CALLS)
     for call in calls:
         ci = names.index(call)
         spec = CALLS[call]
+        n_base = None
         # fixed at every seed: parked before a local close (the shutdown path that skips the
         # wake-ups of run()), and the call made after a remote loss
         out.append(mk(call, "local_close", None, "before"))
@@ -163,6 +166,8 @@ def quick_cases(ctx, calls):
         if call in ("recv", "recv_exit_status", "accept", "exec_command", "global_request", "sftp_stat"):
             out.append(mk(call, "send_fails_first", "global_request", "before"))
         out.extend(pinned(call, ctx.seed, ci))
+        for c in out:
+            c.setdefault("_extra", False)  # the call's own column: stays in the call's shard (measures N there)
         if call in READING_CALLS:
             # a local action on the channel precedes the loss; two cells per (action, call): the reader parked
             # before the loss, and the read made after / while the loss (loss kind rotating with the seed)
@@ -203,6 +208,8 @@ def quick_cases(ctx, calls):
                 out.append(mk(call, "link_eof", None, "before", tmo=2.0))
             else:
                 out.append(mk(call, "peer_close", None, "after", tmo=[0.0, 0.3][(ci // 2 + ctx.seed) % 2]))
+        for c in out:
+            c.setdefault("_extra", True)  # the added dimensions: dealt round-robin over the shards
     return out
 
 
@@ -559,7 +566,11 @@ def _run(ctx):
     calls = [c for i, c in enumerate(names) if ctx.mine(i)]
     window = 10.0 if ctx.quick else 20.0
     if ctx.quick:
-        cases = quick_cases(ctx, calls)
+        plan = quick_cases(ctx, names)
+        extras = [c for c in plan if c["_extra"]]
+        cases = [c for c in plan if not c["_extra"] and c["call"] in calls] + [
+            c for i, c in enumerate(extras) if ctx.mine(i)]
+        cases = [{k: v for k, v in c.items() if k != "_extra"} for c in cases]
         # phase 1: everything but the f-fraction 'during' cases; the 'before' cases also count
         # how many paramiko lines the call executes before it first waits (N per call)
         first = [dict(c, count_lines=True) if c["timing"] == "before" else c
